@@ -15,7 +15,8 @@ META = {
     'level_text': 'TLC enumerates every behaviour of the bounded model and proves that compaction as the code performs it '
                   'keeps what C08 demands; simulated deeper behaviours are executed on the real commitLog.Clean() and '
                   'TLC re-judges each real transition (required survivors, nothing altered) and each real state (fresh '
-                  'forward and reverse readers from every start offset, committed and uncommitted, timestamp look-ups).',
+                  'forward and reverse readers from every start offset, committed and uncommitted, timestamp look-ups; '
+                  'persistent forward and reverse readers overtaken by cleans, also created between snapshot and swap).',
     'level_note': 'One appender, lock-step driver; the clean is parked between snapshot and swap by the verif gate. '
                   'Empty key read as a key of its own (only its latest committed message must survive). Bounds: <= 9 '
                   'records / 16 steps per behaviour (quick), 11 / 20 (thorough); keys {nil, empty, a, b}; 1-3 records per '
